@@ -92,7 +92,7 @@ fn run_case(case: &Value) -> (Vec<Value>, Option<String>) {
         "LocalSetAfterDelete" => w.api("n1", "Set", &key, "v1").or(w.api("n1", "Delete", &key, "")),
         "ReplTombstone" => repl(&mut w, &key, "v0", 1, 0),
         "ReplStale" => repl(&mut w, &key, "v0", 2, 0),
-        "ReplResetCarried" => repl(&mut w, &key, "v0", 1, 0),
+        "ReplResetCarried" | "ReplResetTombstone" => repl(&mut w, &key, "v0", 1, 0),
         "ReplAfterReset" => repl(&mut w, &key, "v0", 1, 0).or(repl_reset(&mut w, 5, "zz-other", "w", 6)),
         _ => None,
     }));
@@ -110,6 +110,7 @@ fn run_case(case: &Value) -> (Vec<Value>, Option<String>) {
         "ReplTombstone" => repl(&mut w, &key, "", 2, 1),
         "ReplStale" => repl(&mut w, &key, "v1", 1, 0),
         "ReplResetCarried" => repl_reset(&mut w, 5, &key, "v1", 6),
+        "ReplResetTombstone" => deliver(&mut w, &WMsg::Ack { ops: vec![WOp::Node { id: wid("n2"), gc: 5, from: 0 }, WOp::KV { key: key.to_string(), val: String::new(), ver: 6, st: 1 }] }),
         "ReplAfterReset" => deliver(&mut w, &WMsg::Ack { ops: vec![WOp::Node { id: wid("n2"), gc: 5, from: 6 }, WOp::KV { key: key.to_string(), val: "v1".to_string(), ver: 7, st: 0 }] }),
         _ => Some(format!("unknown kind {kind}")),
     }));
@@ -131,7 +132,7 @@ fn main() {
         let n: u64 = std::env::args().nth(3).and_then(|s| s.parse().ok()).unwrap_or(500);
         let mut rng = StdRng::seed_from_u64(seed);
         let alphabet = ['a', 'b', 'E', 'G'];
-        let kinds = ["LocalSetNew", "LocalSetChange", "LocalSetSame", "LocalSetAfterDelete", "LocalSetTtlNew", "LocalDelete", "LocalDeleteTtl", "ReplNewerSet", "ReplNewerTtl", "ReplTombstone", "ReplStale", "LocalSetEmptyAfterDelete", "LocalSetTtlSameValue", "ReplSameValueNewer", "ReplResetCarried", "ReplAfterReset"];
+        let kinds = ["LocalSetNew", "LocalSetChange", "LocalSetSame", "LocalSetAfterDelete", "LocalSetTtlNew", "LocalDelete", "LocalDeleteTtl", "ReplNewerSet", "ReplNewerTtl", "ReplTombstone", "ReplStale", "LocalSetEmptyAfterDelete", "LocalSetTtlSameValue", "ReplSameValueNewer", "ReplResetCarried", "ReplAfterReset", "ReplResetTombstone"];
         let fates = ["held", "dropped", "forever"];
         let word = |rng: &mut StdRng, maxlen: usize| -> String { let l = rng.random_range(0..=maxlen); (0..l).map(|_| alphabet[rng.random_range(0..4)]).collect() };
         for _ in 0..n {
